@@ -36,7 +36,7 @@ MAX_N = 500 if core.tier() == "quick" else 1500
 
 @st.composite
 def _cases(draw, max_n=None, max_p=8, containers=("ndarray",)):
-    spec = draw(gen.record_specs(min_n=2, max_n=max_n or MAX_N))
+    spec = draw(gen.record_specs(min_n=2, max_n=max_n or MAX_N, allow_int=["view", "negstride", "readonly"]))
     c = {"rec": spec, "dt": draw(gen.dts(1e-4, 3.0)), "xi": draw(gen.xis()),
          "lead0": draw(st.integers(0, 3)) == 0, "container": draw(st.sampled_from(list(containers)))}
     # periods straddling 6*dt: mix of a log-uniform family and a family concentrated around 6
@@ -103,8 +103,11 @@ def sd_is_peak(case, ctx):
     r = np.array(case["ratios"], dtype=float)
     ctx.nt(bool(np.any(a) and np.any(r < 5.99) and np.any(r > 6.01)))
     ru, rv, ra = ctx.lib(sdof.response_series, a, dt, P, xi)
-    psd, psv, psa = [np.asarray(x) for x in ctx.lib(sdof.pseudo_response_spectra, a, dt, P, xi)]
-    tsd, tsv, tsa = [np.asarray(x) for x in ctx.lib(sdof.true_response_spectra, a, dt, np.asarray(P), xi)]
+    arg = gen.as_container(case["rec"], a)  # memory-layout variant of the same float64 record
+    if case["rec"].get("as"):
+        ctx.cls("as=" + case["rec"]["as"])
+    psd, psv, psa = [np.asarray(x) for x in ctx.lib(sdof.pseudo_response_spectra, arg, dt, P, xi)]
+    tsd, tsv, tsa = [np.asarray(x) for x in ctx.lib(sdof.true_response_spectra, arg, dt, np.asarray(P), xi)]
     ctx.equal(psd, np.max(np.abs(ru), axis=1), "pseudo S_d vs max|u| of response_series")
     ctx.equal(tsd, np.max(np.abs(ru), axis=1), "true S_d vs max|u| of response_series")
     ctx.equal(tsv, np.max(np.abs(rv), axis=1), "true S_v vs max|v| of response_series")
